@@ -125,7 +125,10 @@ def _apply_seq(acc, case):
         acc.fail("C04|%s|after-prior|outcome-type|%s" % (transport, last.kind), "execute() ended with %r" % (last.exc,), case)
     if len(last.tx) > R + 1:
         acc.fail("C04|%s|after-prior|too-many-transmissions" % transport, "%d transmissions with retries=%d" % (len(last.tx), R), case)
-    disturbed = any(last.t0 + EPS < d[0] <= last.t_end + EPS for d in world.deliveries)
+    first_idx = len(world.tx) - len(last.tx)
+    # something the peer still had on its way for the FIRST request reached the client while a transmission of the second one was
+    # in flight (also at the very instant the second request started): then the second request is not facing a silent inverter
+    disturbed = any(d[5] >= first_idx for d in world.deliveries) or any(last.t0 + EPS < d[0] <= last.t_end + EPS for d in world.deliveries)
     if disturbed or last.connects and any(o != "ok" for _t, o in last.connects):
         acc.cls("after-prior|stale-delivery-during-second")
         return
